@@ -40,6 +40,12 @@ ASSUME JsonSerialize(Out("COPY"), SetToSeq({c \in CopyCases : c[3] <= c[4] /\ c[
 Utf8Cases == UNION {{<<LitBase + k, i, j, ByteOff(Lits[k], i), ByteOff(Lits[k], j)>> : i \in 0..Len(Lits[k]), j \in 0..Len(Lits[k])} : k \in 5..8}
 ASSUME JsonSerialize(Out("UTF8"), SetToSeq({c \in Utf8Cases : c[2] <= c[3]}))
 
+\* LONGSET strings around the 64-character chunk boundaries of the index table / ref cache: make-string of
+\*        length L with a character of every width, string-set! of every width at the chunk positions
+\*        (the driver then reads back every index)  <<L, fill, position, replacement>>
+LongLens == {63, 64, 65, 77, 128, 129, 130, 192, 200}
+ASSUME JsonSerialize(Out("LONGSET"), SetToSeq(UNION {{<<n, c1, i, c2>> : c1 \in Classes4, c2 \in Classes4, i \in {0, 63, 64, 127, 128, n - 1} \cap 0..(n - 1)} : n \in LongLens}))
+
 \* --- error-class enumeration: one step from a loaded state
 EnumRegs == << <<65, 128, 2048, 65536>>, <<1114111>> >>
 \* the steps that load EnumInit (replayed before every error case)
